@@ -78,6 +78,9 @@ POOL_B = [
     ("[]", "list"), ("[5]", "list"), ("[1,2,3]", "list"), ('[[1,[2,3]],[],"x"]', "list"), ('[3,"a",null,1.5]', "list"),
     ("V()", "vector"), ("V(1,2,3)", "vector"),
     ("{}", "dict"), ('{1:2,"a":[3]}', "dict"), ("{:0,1:2}", "dict"), ("{1,2}", "dict"),
+    # containers that CONTAIN something unhashable: not valid as keys, although a dict/list of plain values is
+    ("{1:(\\x -> x)}", "dict"), ('{"k":(1 to 3)}', "dict"), ("{1:C14S(1,[2])}", "dict"), ("[{1:(\\x -> x)}]", "list"),
+    ("{1:{2:(\\x -> x)}}", "dict"), ("{:(\\x -> x),1:2}", "dict"), ("[(0.0/0.0)]", "list"), ("V(0.0/0.0)", "vector"),
     ("(1 to 3)", "stream"), ("(0 til 0)", "stream"), ("stream([1,2,3])", "stream"), ("((1 to 3) lazy_map (+1))", "stream"),
     ("(\\x -> x)", "func"), ("(\\a, b -> a + b)", "func"), ("(+)", "func"), ('(\\x -> throw "boom")', "func"),
     ("C14S(1,[2])", "struct"),
@@ -849,6 +852,49 @@ RAW_FAULTS = [
     ("x0 = signum(0-9223372036854775807-1)", {0}), ("x1 = (0-9223372036854775807-1); x1 %= (0-1)", {1}), ("x1 = (0-9223372036854775807-1); x1 //= (0-1)", {1}),
     ("x0 = [0-9223372036854775807-1] map (% (0-1))", {0}), ("x0 = V(0-9223372036854775807-1) % (0-1)", {0}), ("x0 = sum([9223372036854775807, 1])", {0}),
     ("x0 = product([0-9223372036854775807-1, 0-1])", {0}), ("x0 = (0-9223372036854775807-1) til (0-9223372036854775807) then len", {0}),
+    # values that contain something unhashable, in every key position
+    ("x0 = {{1: (\\x -> x)}: 1}", {0}),
+    ("x0 = {{\"k\": (1 to 3)}: 1}", {0}),
+    ("x0 = {{1: C14S(1,[2])}: 1}", {0}),
+    ("x0 = {[{1: (\\x -> x)}]: 1}", {0}),
+    ("x0 = {{1: {2: (\\x -> x)}}: 1}", {0}),
+    ("x0 = {{:(\\x -> x), 1: 2}: 1}", {0}),
+    ("x0 = {[(0.0/0.0)]: 1}", {0}),
+    ("x0 = {V(0.0/0.0): 1}", {0}),
+    ("x0 = {(\\x -> x): 1}", {0}),
+    ("x0 = set([{1: (\\x -> x)}])", {0}),
+    ("x0 = unique([{1: (\\x -> x)}, {1: (\\x -> x)}])", {0}),
+    ("x0 = frequencies([{1: (1 to 3)}])", {0}),
+    ("x0 = count_distinct([{1: C14S(1,[2])}])", {0}),
+    ("x0 = [1,2] group_all (\\v -> {1: (\\x -> x)})", {0}),
+    ("x0 = [1,2] classify (\\v -> {1: (\\x -> x)})", {0}),
+    ("x0 = {1: (\\x -> x)} in {1: 2}", {0}),
+    ("x0 = {1: (\\x -> x)} not_in {1: 2}", {0}),
+    ("x0 = {1: 2} contains {1: (\\x -> x)}", {0}),
+    ("x0 = {1: 2}[{1: (\\x -> x)}]", {0}),
+    ("x0 = {1: 2} !? {1: (\\x -> x)}", {0}),
+    ("f := memoize(\\a -> 1); x0 = f({1: (\\x -> x)})", {0}),
+    ("f := memoize(\\a -> 1); x0 = f([{1: {2: (1 to 3)}}])", {0}),
+    ("x0 = {1: 2} |. {1: (\\x -> x)}", {0}),
+    ("x0 = {1: 2} |.. [{1: (\\x -> x)}, 3]", {0}),
+    ("x0 = {1: 2} || {{1: (\\x -> x)}: 3}", {0}),
+    ("x0 = {1: 2} -. {1: (\\x -> x)}", {0}),
+    ("x0 = {1: (\\x -> x)} == {1: (\\x -> x)}", {0}),
+    ("x0 = [{1: (\\x -> x)}] == [{1: (\\x -> x)}]", {0}),
+    ("x4 = {}; x4[{1: (\\x -> x)}] = 1", {4}),
+    ("x4 = {}; x4[[{1: (1 to 3)}]] += 1", {4}),
+    ("x0 = for (v <- [1,2]) yield {1: (\\x -> x)}: v", {0}),
+    ("x0 = dict([[{1: (\\x -> x)}, 1]])", {0}),
+    ("x0 = {1: (\\x -> x)} then keys then set", {0}),
+    ("x0 = items({1: (\\x -> x)}) then set", {0}),
+    ("x0 = values({1: (\\x -> x)}) then set", {0}),
+    ("x0 = {1: 2} ||+ {{2: C14S(1,2)}: 3}", {0}),
+    ("x0 = [{1: (\\x -> x)}] then sort", {0}),
+    ("x0 = json_encode({1: (\\x -> x)})", {0}),
+    ("x0 = {{1: 2}: 1}[{1: 2}]", {0}),
+    ("x0 = switch ({1: (\\x -> x)}) case {1: 2} -> 1 case _ -> 2", {0}),
+    ("x0 = [{1: (\\x -> x)}] locate {1: (\\x -> x)}", {0}),
+    ("x0 = [{1: (\\x -> x)}] count {1: (\\x -> x)}", {0}),
     ("x0 %= 0", {0}), ("x0 %%= 0", {0}), ("x0 /= 0", {0}), ("x0 gcd= null", {0}), ("x0 til= null", {0}), ("x0 by= 0", {0}), ("x0 = 1 to null", {0}),
 ]
 
@@ -896,7 +942,7 @@ LAMBDA_PARAMS = ["p, q = 3", "p = 1, q = 2", "p, q = 1 // 0", "p = 1 // 0, q", "
                  "[p, q], r = 5", "p * 2", "p * 0", "p + 1, q * 0", "C14S(p, q), r = 1", "p, [q, r] = [7, 8]", "-p", "p / q", "p .+ q", "1 < p < 9", "literally 5", "p or q", "_"]
 PATTERN_VALUES = [
     "0", "1", "5", "6", "7", "(0-3)", "(0-9223372036854775807-1)", "9223372036854775807", "18446744073709551616", "(18446744073709551616-18446744073709551610)",
-    "(1/2)", "(7/2)", "((1/2)-(1/2))", "0.0", "2.5", "6.0", "(0.0/0.0)", "(1.0/0.0)", "(1+2i)", "(0.0*1i)", "null", "\"a\"", "\"\"", "\"abc\"",
+    "(1/2)", "(7/2)", "((1/2)-(1/2))", "0.0", "2.5", "6.0", "(0.0/0.0)", "(1.0/0.0)", "(1+2i)", "(0.0*1i)", "null", "\"a\"", "\"\"", "\"abc\"", "\"\u00e9\"", "\"\u4e2d\u6587\"", "\"\U0001d11ex\"", "\"a\u00e9\"",
     "[]", "[1]", "[1,2]", "[1,\"a\"]", "[[1,2],3]", "[1,2,3]", "{}", "{1:2}", "C14S(1,[2])", "C14S(1,2)", "C14S(C14S(1,2),3)", "(1 to 2)", "(0 til 0)", "B[1]", "V(1,2)", "V(4,6)", "(\\x -> x)", "C14S",
 ]
 
